@@ -54,9 +54,7 @@ func nonCanonicalScalar(r *gen.Rand) []byte {
 
 // C14: failed setters are atomic; successful ones return the receiver; inputs never modified.
 func C14(c *Ctx) {
-	if !raw.PointOK() || !raw.ScalarOK() || !raw.ElementOK() {
-		c.Inconclusive("raw layout guard failed: receiver snapshots fall back to Bytes()")
-	}
+
 	n := c.N(240000, 24000000)
 	for i := int64(0); i < n; i++ {
 		if !c.Mine(i) {
@@ -139,10 +137,10 @@ func C14(c *Ctx) {
 			if recv == nil {
 				recv = edwards25519.NewGeneratorPoint()
 			}
-			before := raw.PointBytes(recv)
+			before := raw.PointSnap(recv)
 			var p *edwards25519.Point
 			var err error
-			var argsBefore, argsAfter [4][40]byte
+			var argsBefore, argsAfter [4]string
 			if setter == 0 {
 				pv := catch(func() { p, err = recv.SetBytes(in) })
 				if pv != nil {
@@ -188,7 +186,7 @@ func C14(c *Ctx) {
 				var es [4]*field.Element
 				for k := range es {
 					es[k], _ = r.RandRepr(vals[k])
-					argsBefore[k] = raw.ElementBytes(es[k])
+					argsBefore[k] = raw.ElementSnap(es[k])
 				}
 				pv := catch(func() { p, err = recv.SetExtendedCoordinates(es[0], es[1], es[2], es[3]) })
 				if pv != nil {
@@ -197,11 +195,11 @@ func C14(c *Ctx) {
 					continue
 				}
 				for k := range es {
-					argsAfter[k] = raw.ElementBytes(es[k])
+					argsAfter[k] = raw.ElementSnap(es[k])
 				}
 				fail = why != "valid"
 			}
-			c.Eval(true, []byte(name), in, before[:], []byte(why))
+			c.Eval(true, []byte(name), in, []byte(before), []byte(why))
 			if argsBefore != argsAfter {
 				c.Fail("setter modified a coordinate argument", det)
 			}
@@ -210,7 +208,7 @@ func C14(c *Ctx) {
 					det["err-nil"], det["value-nil"] = err == nil, p == nil
 					c.Fail("invalid input: expected (nil, error)", det)
 				}
-				if raw.PointBytes(recv) != before {
+				if raw.PointSnap(recv) != before {
 					c.Fail("failed setter changed the receiver", det)
 				}
 			} else if err != nil || p != recv {
@@ -226,7 +224,7 @@ func C14(c *Ctx) {
 				recv.SetCanonicalBytes(nonCanonicalScalar(r))
 				recv.SetUniformBytes(make([]byte, 63))
 			}
-			before := raw.ScalarLimbs(recv)
+			before := raw.ScalarSnap(recv)
 			var s *edwards25519.Scalar
 			var err error
 			pv := catch(func() {
@@ -239,7 +237,7 @@ func C14(c *Ctx) {
 					s, err = recv.SetBytesWithClamping(in)
 				}
 			})
-			c.Eval(true, []byte(name), in, []byte(intHex(raw.ScalarLimbInt(before))))
+			c.Eval(true, []byte(name), in, []byte(before))
 			if pv != nil {
 				det["panic"] = pv
 				c.Fail("unexpected panic", det)
@@ -249,7 +247,7 @@ func C14(c *Ctx) {
 				if err == nil || s != nil {
 					c.Fail("invalid input: expected (nil, error)", det)
 				}
-				if raw.ScalarLimbs(recv) != before {
+				if raw.ScalarSnap(recv) != before {
 					c.Fail("failed setter changed the receiver", det)
 				}
 			} else if err != nil || s != recv {
@@ -267,7 +265,7 @@ func C14(c *Ctx) {
 				recv.SetBytes(make([]byte, 33))
 				recv.SetWideBytes(make([]byte, 32))
 			}
-			before := raw.ElementBytes(recv)
+			before := raw.ElementSnap(recv)
 			var e *field.Element
 			var err error
 			pv := catch(func() {
@@ -277,7 +275,7 @@ func C14(c *Ctx) {
 					e, err = recv.SetWideBytes(in)
 				}
 			})
-			c.Eval(true, []byte(name), in, before[:])
+			c.Eval(true, []byte(name), in, []byte(before))
 			if pv != nil {
 				det["panic"] = pv
 				c.Fail("unexpected panic", det)
@@ -287,7 +285,7 @@ func C14(c *Ctx) {
 				if err == nil || e != nil {
 					c.Fail("invalid input: expected (nil, error)", det)
 				}
-				if raw.ElementBytes(recv) != before {
+				if raw.ElementSnap(recv) != before {
 					c.Fail("failed setter changed the receiver", det)
 				}
 			} else if err != nil || e != recv {
